@@ -180,6 +180,8 @@ def port_of(src):
 
 
 async def main(args):
+    from . import lib as _lib
+    _lib.UNIQUE_SRC = True   # records are joined with connections by source port
     out = Out("C16", "c16", "mixed populations (success over http/https/socks5/socks4/reverse with and without early data, denied, upstream refused, client abort before/during/after the handshake, garbage handshake, TLS handshake failure, UDP association) at 1..150 concurrency against proxies with history_size {0, 3, 1000} and both I/O modes, log rotation at random instants; harness ground truth joined with /api/live, /api/history and the access log. distinct = distinct (connection kind, listener, io mode, history size, payload class)")
     rng = random.Random(args.seed)
     origin = await TcpOrigin(echo_handler, host="127.0.0.1").start()
